@@ -288,7 +288,9 @@ func (r *rewriter) stmt(s ast.Stmt) []ast.Stmt {
 			for _, a := range st.Call.Args {
 				r.exprs(a)
 			}
-			return []ast.Stmt{assign, st}
+			// the parent parks right after the spawn: the child may run before the
+			// parent's next statement (e.g. a WaitGroup.Add that comes too late)
+			return []ast.Stmt{assign, st, &ast.ExprStmt{X: call("Y", r.site("spawned"), &ast.BasicLit{Kind: token.STRING, Value: "\"spawned\""})}}
 		}
 		var pre []ast.Stmt
 		pre = append(pre, assign)
@@ -308,7 +310,7 @@ func (r *rewriter) stmt(s ast.Stmt) []ast.Stmt {
 		}
 		body := &ast.BlockStmt{List: []ast.Stmt{born, &ast.ExprStmt{X: inner}}}
 		st.Call = &ast.CallExpr{Fun: &ast.FuncLit{Type: &ast.FuncType{Params: &ast.FieldList{}}, Body: body}}
-		return []ast.Stmt{&ast.BlockStmt{List: append(pre, st)}}
+		return []ast.Stmt{&ast.BlockStmt{List: append(pre, st, &ast.ExprStmt{X: call("Y", r.site("spawned"), &ast.BasicLit{Kind: token.STRING, Value: "\"spawned\""})})}}
 	case *ast.DeferStmt:
 		r.exprs(st.Call)
 		return []ast.Stmt{st}
